@@ -4,13 +4,14 @@ CONSTANTS
   n2 = n2
   n3 = n3
   Nodes <- N3
-  NW = 3
-  WKeys <- KeysCol3
-  WKinds <- KindsCol3
-  WVia <- Via121
+  NW = 2
+  WKeys <- KeysCol2
+  WKinds <- KindsCol2
+  WVia <- Via12
   SnapCount = 1
   CatchUp = 0
   MaxCrashes = 3
   SnapshotRestoresStateMachine = TRUE
   SnapshotSerialisesAllTypes = FALSE
 INVARIANTS TypeOK Durability
+ACTION_CONSTRAINT PORSerial
